@@ -156,6 +156,12 @@ Fixpoint mentions_pred (name : str) (f : cform) : bool :=
   end.
 Definition K_nth (f : cform) : bool := mentions_pred s_nth f.
 Definition K_count (f : cform) : bool := mentions_pred s_count f.
+(* consecutive: the implementation's predicate departs from consecutive_spec (C04 finding
+   consecutive-relative-paths, open), so solutions satisfy ISLa's evaluator but not the spec *)
+Definition K_consecutive (f : cform) : bool := mentions_pred s_consecutive f.
+(* a start symbol was requested but the constant of the (textual) formula is typed otherwise
+   (the parser's default <start>): the root of the solutions is the constant's type *)
+Definition K_const_type (cst : var) (start : str) : bool := negb (str_eqb (vtype cst) start).
 
 (* initial and final states (ISLaSolver.__init__: initial_tree = open root labelled with the start
    symbol, constant instantiated by it; SolutionState.complete: closed tree and constraint true) *)
